@@ -24,7 +24,7 @@ RULE = ("case kinds by index mod 4: 0 = s-betweenness/closeness of hyperedges (s
         "a node; distinct = by input")
 DECIDING = ["C20:s-edge", "C20:s-node", "C20:averaged", "C20:subhypergraph", "C20:cec", "C20:hec", "C20:relabel"]
 ASSUMPTIONS = ["networkx betweenness/closeness are the reference functionals; comparisons to 1e-12 (exact graph algorithms)",
-               "CEC residual <= 1e-5*lambda, HEC ratio spread <= 1e-3 relative, relabelled iterative centralities compared to 1e-4"]
+               "CEC residual <= 1e-5*lambda (up to 3e-5: inconclusive), HEC ratio spread <= 1e-3 relative, relabelled iterative centralities compared to 1e-4"]
 
 
 class NullCtx:
@@ -81,6 +81,12 @@ def static_case(ctx, rng, idx):
     from hypergraphx.measures import s_centralities as sc
     import hypergraphx as hgx
 
+    if idx == 8 or (ctx.tier == "thorough" and idx % 800 == 16):
+        from ..gen import sharing_256_nodes
+
+        ctx.event("hyperedges-sharing-256+-nodes")
+        static_eval(ctx, rng, idx, sharing_256_nodes(rng))
+        return
     if idx == 4 or (ctx.tier == "thorough" and idx % 800 == 12):
         from ..gen import big_hypergraph
 
@@ -137,7 +143,7 @@ def static_eval(ctx, rng, idx, h):
         results[(name, 0)] = dict(r)
     # relabelling: strictly monotone or shuffled injective map onto fresh labels of the same type
     if all(isinstance(n, (int, np.integer)) for n in nodes):
-        img = rng.sample(range(-50, 200), len(nodes))
+        img = rng.sample(range(-50, max(200, 3 * len(nodes))), len(nodes))
     else:
         img = rng.sample(["p%d" % i for i in range(40)] + ["E%d" % i for i in range(10)], len(nodes))
     pm = dict(zip(nodes, img))
@@ -282,6 +288,17 @@ def eigen_case(ctx, rng, idx):
         h = hgx.Hypergraph([(0, 1, a, b) for a, b in _it.combinations(range(2, N), 2)])
         eigen_eval(ctx, rng, idx, h, 4, N)
         return
+    if idx == 7 or (ctx.tier == "thorough" and idx % 800 == 19):
+        # slowly mixing: a loose path of 20 hyperedges (second eigenvalue at 0.98 of the first); the power iteration needs a
+        # few hundred steps.  HEC is left out here (its own default budget of 100 iterations does not reach its tolerance on
+        # such inputs on the pinned tree either - not what this case is about)
+        k = rng.choice([3, 4])
+        L = 20
+        edges = [tuple(range(i * (k - 1), i * (k - 1) + k)) for i in range(L)]
+        N = edges[-1][-1] + 1
+        ctx.event("slowly-mixing-path")
+        eigen_eval(ctx, rng, idx, hgx.Hypergraph(edges), k, N, only_cec=True)
+        return
     k = rng.choice([3, 4])
     N = rng.randint(k, 9)
     nodes = list(range(N))
@@ -312,7 +329,7 @@ def eigen_case(ctx, rng, idx):
         eigen_eval(ctx, rng, idx, h, k, N)
 
 
-def eigen_eval(ctx, rng, idx, h, k, N):
+def eigen_eval(ctx, rng, idx, h, k, N, only_cec=False):
     import hypergraphx as hgx
     from hypergraphx.measures import eigen_centralities as ec
 
@@ -344,11 +361,13 @@ def eigen_eval(ctx, rng, idx, h, k, N):
             res = float(np.max(np.abs(W @ c - lam * c)))
             if res <= 1e-5 * lam:
                 ctx.tick("C20:cec")
-            elif res < 1e-3 * lam:
+            elif res < 3e-5 * lam:
                 ctx.inconclusive_case("band:C20:cec")
             else:
                 ctx.check("C20:cec", False, "C20:CEC:eigen-equation-residual", lambda: wit((seed, res, lam, c.tolist())))
             base.setdefault("cec", c)
+        if only_cec:
+            continue
         np.random.seed(seed)
         r = call(quiet, ec.HEC_centrality, h)
         if isinstance(r, _Raised):
